@@ -11,17 +11,27 @@ EXPLANATION = (
     "Decided (structural): (1) the convergent key is digest() of convergence_hasher(k, n, segsize, secret) with k, n, "
     "segsize = elements 0, 2, 3 of the tuple delivered by get_all_encoding_parameters() and secret = self.convergence; "
     "the hashutil tag depends on all four; the read loop leaves only on an empty read, every non-empty chunk reaches "
-    "update() before the next read or the digest, and the file is rewound afterwards; (2) get_encryption_key takes "
+    "update() before the next read or the digest, the file is rewound afterwards and no read for the key follows a seek to another position than 0; an explicitly set "
+    "encoding_param_k / encoding_param_n / max_segment_size wins over its default and the default is used when it is "
+    "unset (decided for or / and / conditional expressions, other shapes only by dependency); (2) get_encryption_key takes "
     "the convergent branch iff self.convergence is not None, the random branch stores os.urandom(16); subclasses "
     "pass their convergence argument through; the storage index is storage_index_hash(key) of the key alone, the "
     "encryptor uses the same key, and the read cap is built from that key and the fields of the verify cap in "
     "parameter order; (3) Uploader.upload routes size <= URI_LIT_SIZE_THRESHOLD (folds to 55, written nowhere "
     "else) to LiteralUploader and only strictly larger sizes to the CHK uploaders, size being the result of "
     "uploadable.get_size(); (4) LiteralUploader embeds b''.join of everything read_this_many_bytes(uploadable, size) "
-    "accumulates, in order, into LiteralFileURI and reaches no storage-broker / remote call; LiteralFileURI and "
+    "accumulates, in order, into LiteralFileURI (read_this_many_bytes answers without reading only under size == 0, "
+    "then with the empty / accumulated list, and otherwise returns the Deferred of uploadable.read(size)) and reaches no storage-broker / remote call; LiteralFileURI and "
     "LiteralFileNode only use the embedded data; (5) EncryptAnUploadable hashes and encrypts every chunk it reads, "
-    "first-in first-out, with the one encryptor, independent of the chunking. "
-    "Undecided: SHA-256d / AES-CTR behave as functions of their inputs (library), netstring injectivity (unit-tested).")
+    "first-in first-out, with the one encryptor, independent of the chunking; (6) the CHK read cap is stored with "
+    "results.set_uri(cap.to_string()) on every path, the results and the Deferreds carrying them are returned, and "
+    "the read-cap step is registered on the Deferred every path of the CHK branch returns. "
+    "Undecided: SHA-256d / AES-CTR behave as functions of their inputs (library), netstring injectivity (unit-tested); "
+    "the value of the segment size (min with the file size, rounding to a multiple of k) beyond its dependency on "
+    "max_segment_size; that the handle is at offset 0 when the key hashing starts if the first seek(0) is removed "
+    "(get_size() leaves it there); that the random / convergent key is cached between the two get_encryption_key() "
+    "calls and the encryptor is created once (round-trip, not convergence); argument validation in "
+    "_convergence_hasher_tag; LiteralFileNode.read offset/size slicing.")
 TECHNIQUE = "static analysis: depends-on and positional provenance, CFG x typestate for the read loop, edge facts, constant folding"
 
 UP = "immutable.upload:"
@@ -199,10 +209,11 @@ def run(ctx: Context):
         # Decided by evaluating the defining expression (or / and / conditional expressions over attribute
         # leaves) with the setting truthy and with the setting None; other shapes are left to (c).
         odefs = def_exprs(bu)
+        used_inside = {x.id for x in ast.walk(inner.node) if isinstance(x, ast.Name) and isinstance(x.ctx, ast.Load)}
         for setting in ("encoding_param_k", "encoding_param_n", "max_segment_size"):
             opath = "self." + setting
             for var, exprs in sorted(odefs.items()):
-                if len(exprs) != 1 or opath not in {attr_path(x) for x in ast.walk(exprs[0]) if isinstance(x, ast.Attribute)}:
+                if var not in used_inside or len(exprs) != 1 or opath not in {attr_path(x) for x in ast.walk(exprs[0]) if isinstance(x, ast.Attribute)}:
                     continue
                 when_set = _choose(exprs[0], opath, True, odefs)
                 when_unset = _choose(exprs[0], opath, False, odefs)
@@ -241,7 +252,8 @@ def run(ctx: Context):
 
         def is_rewind(c):
             return bool(c.args) and isinstance(c.args[0], ast.Constant) and c.args[0].value == 0 and not c.keywords and (
-                len(c.args) == 1 or (isinstance(c.args[1], ast.Constant) and c.args[1].value == 0))
+                len(c.args) == 1 or (isinstance(c.args[1], ast.Constant) and c.args[1].value == 0)
+                or attr_path(c.args[1]) in ("os.SEEK_SET", "io.SEEK_SET"))
 
         def seeks(n):
             """'rewind' / 'moved' for the last seek on the file handle in statement n, else None."""
@@ -679,11 +691,14 @@ def run(ctx: Context):
                         "the literal cap would not embed the data (path: %s)" % (src(rt, n.ast.value), spar, w.brief()), w)
         for n in rcfg.find(early):
             v = rfn.resolve(n, n.ast.value) if n.ast.value is not None else None
-            a = v.args[0] if isinstance(v, ast.Call) and call_tail(v) == "succeed" and len(v.args) == 1 else None
+            # all callers are Deferred callbacks, so the bare list is as good as succeed(list)
+            a = v.args[0] if isinstance(v, ast.Call) and call_tail(v) == "succeed" and len(v.args) == 1 else v
             a = rfn.resolve(n, a) if a is not None else None
+            if isinstance(a, ast.Name) and a.id != ppar:        # a list literal bound to a local is not substituted
+                a = sole_def(rfn, n, a.id) or a
             ok = a is not None and ((isinstance(a, ast.List) and not a.elts) or (isinstance(a, ast.Name) and a.id == ppar)
                                     or (isinstance(a, ast.Call) and call_name(a) == "list" and not a.args))
-            r.require(ok, rt, rt.loc(n.ast), "for %s == 0 read_this_many_bytes returns %s, expected a Deferred of the "
+            r.require(ok, rt, rt.loc(n.ast), "for %s == 0 read_this_many_bytes returns %s, expected the "
                       "empty / accumulated list (succeed([]))" % (spar, src(rt, n.ast.value)))
         for w in reaches_exit_avoiding(rcfg, is_return):
             r.violation(rt, rt.loc(), "read_this_many_bytes can return None instead of the Deferred", w)
@@ -859,6 +874,106 @@ def run(ctx: Context):
         ok = bool(fed) and any(isinstance(v, ast.Call) and any(attr_path(x) == "self.original.read" for x in ast.walk(v))
                                for v in dsrc) and [x for x in regs if x.recv == fed[0].recv][0] is fed[0]
         r.require(ok, re_, re_.loc(), "%s is not the first callback of self.original.read(..)" % g.name)
+
+    # -- 6. the read cap reaches the upload results ---------------------------
+    with ctx.rule("C05.6", "R1/R4", "the CHK read cap built from the key is stored with set_uri(cap.to_string()) in the "
+                  "upload results on every path, the results are passed on, and that step is registered on the "
+                  "Deferred the CHK branch of Uploader.upload returns", expected=3) as r:
+        up = idx.func(UP + "Uploader.upload")
+        holder = [f for f in _descendants(up) if calls_in_func(f, "CHKFileURI")]
+        if len(holder) != 1 or holder[0].parent is None or holder[0].parent.parent is None:
+            raise AnchorVanished("construction of the read cap (CHKFileURI) in nested callbacks of Uploader.upload")
+        h = holder[0]
+        par = h.parent
+        top = par.parent
+        hcfg = h.cfg()
+        hn = FlowNorm(h)
+        pps = first_positional_params(par)
+        if not pps:
+            raise AnchorVanished("%s takes the upload results" % short(par))
+        res = pps[0]
+        caps = calls_in_func(h, "CHKFileURI")
+
+        def stores_cap(n):
+            for c in calls_at(n, "set_uri"):
+                if not (isinstance(c.func, ast.Attribute) and attr_path(c.func.value) == res):
+                    continue
+                a = arg(c, 0, "uri")
+                a = hn.resolve(n, a) if a is not None else None
+                if isinstance(a, ast.Call) and isinstance(a.func, ast.Attribute) and a.func.attr == "to_string" and not a.args \
+                        and any(hn.resolve(n, a.func.value) is cc for cc in caps):
+                    return True
+            return False
+        setters = hcfg.find(stores_cap)
+        others = [n for n in hcfg.find(has_call("set_uri")) if not stores_cap(n)]
+        if not setters and not others:
+            r.violation(h, h.loc(), "the read cap is never stored in the upload results (no %s.set_uri(..)): the upload "
+                        "returns no cap" % res)
+        else:
+            r.site(h, (setters or others)[0].ast, "set_uri")
+        for n in others:
+            r.violation(h, h.loc(n.ast), "%s is not %s.set_uri(<the CHKFileURI built from the key>.to_string())" % (
+                src(h, n.ast), res))
+        if setters:
+            for w in reaches_exit_avoiding(hcfg, stores_cap):
+                r.violation(h, h.loc(), "the read cap is not stored in the upload results on some path (path: %s)" % w.brief(), w)
+        for n in hcfg.find(is_return):
+            r.require(n.ast.value is not None and attr_path(n.ast.value) == res, h, h.loc(n.ast),
+                      "%s returns %s, not the upload results %s" % (short(h), src(h, n.ast.value), res))
+        for w in reaches_exit_avoiding(hcfg, is_return):
+            r.violation(h, h.loc(), "%s can return None instead of the upload results" % short(h), w)
+        for n in hcfg.find(stores(res)):
+            r.violation(h, h.loc(n.ast), "%s re-binds %s" % (short(h), res))
+        # the enclosing callback returns the Deferred that step is registered on
+        pregs = registrations(par)
+        fed = [x for x in pregs if isinstance(x.target, ast.Name) and x.target.id == h.name and x.kind == "cb"]
+        if not fed:
+            raise AnchorVanished("%s is not registered as a callback in %s" % (h.name, short(par)))
+        r.site(par, fed[0].call, "key callback")
+        for n in par.cfg().find(is_return):
+            r.require(n.ast.value is not None and attr_path(n.ast.value) == fed[0].recv, par, par.loc(n.ast),
+                      "%s returns %s, not the Deferred %s that delivers the results with the read cap" % (
+                          short(par), src(par, n.ast.value), fed[0].recv))
+        for w in reaches_exit_avoiding(par.cfg(), is_return):
+            r.violation(par, par.loc(), "%s can return None instead of the Deferred of the results" % short(par), w)
+        # ... and is itself registered on what the CHK branch returns
+        tregs = registrations(top)
+        tfed = [x for x in tregs if isinstance(x.target, ast.Name) and x.target.id == par.name]
+        if not tfed:
+            r.violation(top, top.loc(), "%s is not registered as a callback: CHK uploads deliver results without a "
+                        "read cap" % par.name)
+        else:
+            x = tfed[0]
+            r.site(top, x.call, "read-cap step registered")
+            r.require(x.kind == "cb", top, top.loc(x.call), "%s is registered as %s, not as a callback" % (par.name, x.kind))
+            tcfg = top.cfg()
+            regnode = node_of(tcfg, x.call)
+            big = has_call(("EncryptAnUploadable", "CHKUploader", "AssistedUploader"))
+            starts = tcfg.find(big)
+            if not starts or regnode is None:
+                raise AnchorVanished("CHK upload branch in %s" % short(top))
+            seen = set()
+            for s0 in starts:
+                for w in _from_node_to_exit_avoiding(tcfg, s0, lambda m: m is regnode):
+                    if "reg" not in seen:
+                        seen.add("reg")
+                        r.violation(top, top.loc(s0.ast), "the CHK branch can finish without registering %s (path: %s)" % (
+                            par.name, w.brief()), w)
+
+                def tr(m, lab, nxt, st):
+                    if lab == "exc" or infeasible(m, lab):
+                        return None
+                    return 0
+                visited, parent = explore(tcfg, 0, tr, start=s0)
+                for (nid, st) in sorted(visited):
+                    m = tcfg.nodes[nid]
+                    if is_return(m) and ("ret", nid) not in seen:
+                        seen.add(("ret", nid))
+                        r.require(m.ast.value is not None and attr_path(m.ast.value) == x.recv, top, top.loc(m.ast),
+                                  "the CHK branch returns %s, not the Deferred %s that ends with the read-cap step" % (
+                                      src(top, m.ast.value), x.recv))
+            for w in reaches_exit_avoiding(tcfg, is_return):
+                r.violation(top, top.loc(), "%s can return None" % short(top), w)
 
 
 def _choose(e, opath, is_set, defs, depth=0):
